@@ -769,10 +769,56 @@ theorem valueFindLine_ok (F : SegFacts src segs) (h : BAbs src segs r c) (s : Se
       simp only [hn, if_false]
       exact ih (by omega) (by omega)
 
-/-- Value(seg) of the block reader is the segment's own value when `valuePreAt j seg` holds for some line j -/
-theorem bvalue_ref (F : SegFacts src segs) (h : BAbs src segs r c) (j : Nat) (s : Segment)
-    (hp : BCur.valuePreAt segs j s) : r.valueOp s = .ok (segValue src s) := by
-  obtain ⟨l, hl, p1, p2, p3, p4, p5, p6⟩ := hp
+theorem copyRange_ok (src : Bytes) {a b : Int} (ha : 0 ≤ a) (hb : a ≥ b ∨ b ≤ src.length) :
+    BlockReader.copyRange src a b = .ok (sub src a.toNat b.toNat) := by
+  unfold BlockReader.copyRange
+  by_cases e : a ≥ b
+  · have : b.toNat - a.toNat = 0 := by omega
+    simp [e, sub, this]
+  · have e2 : ¬ (a < 0 ∨ b > (src.length : Int)) := by omega
+    simp [e, e2]
+
+/-- the loop of Value from the head of line `line` on (`i = -1`): every line contributes its view up to the stop -/
+theorem valueLoop_rest (F : SegFacts src segs) (h : BAbs src segs r c) (s : Segment) (fuel : Nat) :
+    ∀ (line : Int) (ret : Bytes), 0 ≤ line → line ≤ BCur.k segs → fuel = (BCur.k segs - line).toNat →
+    BlockReader.valueLoop r s fuel line (-1) ret = .ok (ret ++ BCur.valueRest src s.stop (segs.drop line.toNat)) := by
+  induction fuel with
+  | zero =>
+    intro line ret h0 h1 hf
+    have : segs.length ≤ line.toNat := by simp [BCur.k] at h1 hf ⊢; omega
+    simp [BlockReader.valueLoop, List.drop_eq_nil_of_le this, BCur.valueRest, pure, Except.pure]
+  | succ fuel ih =>
+    intro line ret h0 h1 hf
+    have hlt : line < BCur.k segs := by omega
+    have rng := F.rng line h0 hlt
+    have hltn : line.toNat < segs.length := by simp [BCur.k] at hlt; omega
+    have hg := segOf_get segs line h0 hlt
+    rw [List.getElem?_eq_getElem hltn] at hg
+    simp only [Option.some.injEq] at hg
+    simp only [BlockReader.valueLoop, h.segments, segAt_ok segs line h0 hlt, bind, Except.bind, h.source,
+      show ((-1 : Int) < 0) by omega, if_true, beq_self_eq_true]
+    have hcopy := copyRange_ok src (a := (BCur.segOf segs line).start)
+      (b := if s.stop < (BCur.segOf segs line).stop then s.stop else (BCur.segOf segs line).stop) rng.1
+      (by split <;> omega)
+    rw [hcopy]
+    simp only
+    rw [List.drop_eq_getElem_cons hltn, hg]
+    simp only [BCur.valueRest]
+    by_cases hge : (BCur.segOf segs line).stop ≥ s.stop
+    · simp only [hge, if_true, pure, Except.pure]
+      simp [Segment.concatPadding]
+      split <;> simp
+    · simp only [hge, if_false]
+      rw [ih (line + 1) _ (by omega) (by omega) (by omega)]
+      have e : (line + 1).toNat = line.toNat + 1 := by omega
+      rw [e]
+      simp [Segment.concatPadding]
+      split <;> simp
+
+/-- Value(seg) for a segment that starts in line `j` and may run on over later lines -/
+theorem bvalue_multi (F : SegFacts src segs) (h : BAbs src segs r c) (j : Nat) (s : Segment)
+    (hp : BCur.valueLineAt segs j s) : r.valueOp s = .ok (BCur.blockValue src segs j s) := by
+  obtain ⟨l, hl, p1, p2, p6⟩ := hp
   have hjlt : j < segs.length := by
     rcases Nat.lt_or_ge j segs.length with a | a
     · exact a
@@ -807,24 +853,48 @@ theorem bvalue_ref (F : SegFacts src segs) (h : BAbs src segs r c) (j : Nat) (s 
   rw [hf]
   simp only [BlockReader.valueLoop, h.segments, segAt_ok segs (j : Int) (by omega) hjk, hseg, bind, Except.bind, h.source]
   have hi : ¬ (s.start < 0) := by omega
-  have hhi : (if s.stop < l.stop then s.stop else l.stop) = s.stop := by split <;> omega
-  simp only [hi, if_false, hhi]
-  have hcopy : BlockReader.copyRange src s.start s.stop = .ok (sub src s.start.toNat s.stop.toNat) := by
-    unfold BlockReader.copyRange
-    by_cases e : s.start ≥ s.stop
-    · have : s.start = s.stop := by omega
-      simp [e, this, sub]
-    · have e2 : ¬ (s.start < 0 ∨ s.stop > (src.length : Int)) := by omega
-      simp [e, e2]
+  simp only [hi, if_false]
+  have hcopy := copyRange_ok src (a := s.start) (b := if s.stop < l.stop then s.stop else l.stop) (by omega)
+    (by split <;> omega)
   rw [hcopy]
+  simp only [BCur.blockValue, hl]
+  by_cases hge : l.stop ≥ s.stop
+  · simp only [hge, if_true, pure, Except.pure]
+    by_cases he : s.start = l.start
+    · simp [he]
+    · simp [he]
+  · simp only [hge, if_false]
+    rw [valueLoop_rest F h s f ((j : Int) + 1) _ (by omega) (by omega) (by omega)]
+    have e : ((j : Int) + 1).toNat = j + 1 := by omega
+    rw [e]
+    by_cases he : s.start = l.start
+    · simp [he]
+    · simp [he]
+
+/-- inside one line the meaning is the segment's own value -/
+theorem blockValue_single (src : Bytes) (segs : List Segment) (j : Nat) (s : Segment) (hp : BCur.valuePreAt segs j s) :
+    BCur.blockValue src segs j s = segValue src s := by
+  obtain ⟨l, hl, p1, p2, p3, p4, p5, p6⟩ := hp
+  have hhi : (if s.stop < l.stop then s.stop else l.stop) = s.stop := by split <;> omega
   have hge : l.stop ≥ s.stop := by omega
-  simp only [hge, if_true, pure, Except.pure]
-  congr
+  simp only [BCur.blockValue, hl, hhi, hge, if_true, List.append_nil]
   unfold segValue Segment.concatPadding
-  simp only [p5, Bool.false_and, Bool.false_eq_true, if_false, p4]
-  by_cases hpad : l.padding > 0
-  · simp [hpad]
-  · have : l.padding = 0 := by omega
-    simp [this, spaces]
+  simp only [p5, Bool.false_and, Bool.false_eq_true, if_false]
+  rcases p4 with ⟨a, b⟩ | ⟨a, b⟩
+  · simp only [a, if_true, b]
+    by_cases hpad : l.padding > 0
+    · simp [hpad]
+    · have : l.padding.toNat = 0 := by omega
+      simp [hpad, this, spaces]
+  · have : ¬ s.start = l.start := by omega
+    simp [this, b, spaces]
+
+/-- Value(seg) of the block reader is the segment's own value when `valuePreAt j seg` holds for some line j -/
+theorem bvalue_ref (F : SegFacts src segs) (h : BAbs src segs r c) (j : Nat) (s : Segment)
+    (hp : BCur.valuePreAt segs j s) : r.valueOp s = .ok (segValue src s) := by
+  have hp' : BCur.valueLineAt segs j s := by
+    obtain ⟨l, hl, p1, p2, _, _, _, p6⟩ := hp
+    exact ⟨l, hl, p1, p2, p6⟩
+  rw [bvalue_multi F h j s hp', blockValue_single src segs j s hp]
 
 end GM.Proof.Reader
